@@ -14,5 +14,5 @@ one() {
   git -C /repo worktree remove --force $SCR
 }
 export -f one; export OUT
-ls -d /verif/seeded/C* | xargs -P $J -I{} bash -c 'one {}'
+ls -d /verif/seeded/${SEEDED_GLOB:-C*} | xargs -P $J -I{} bash -c 'one {}'
 git -C /repo worktree prune
